@@ -39,9 +39,10 @@ pub enum Kind {
     RejectedMerge,
     SaveReadSave,
     JoinMerge,
+    FullVertex,
 }
 
-const KINDS: [Kind; 28] = [
+const KINDS: [Kind; 29] = [
     Kind::Add,
     Kind::AddNext,
     Kind::NextOnly,
@@ -70,11 +71,12 @@ const KINDS: [Kind; 28] = [
     Kind::RejectedMerge,
     Kind::SaveReadSave,
     Kind::JoinMerge,
+    Kind::FullVertex,
 ];
 
 fn base_weights(prop: &str) -> Vec<(Kind, u32)> {
     use Kind::*;
-    let core = vec![(Add, 10), (AddNext, 4), (Bind, 16), (Put, 11), (Data, 12), (BigGroup, 1)];
+    let core = vec![(Add, 10), (AddNext, 4), (Bind, 16), (Put, 11), (Data, 12), (BigGroup, 1), (FullVertex, 1)];
     let mut w = core;
     match prop {
         "C01" => w.extend([
@@ -725,6 +727,49 @@ impl Gen {
                 self.queue.push_back(Step::Drop { i: x });
                 self.queue.push_back(Step::Drop { i: y });
                 Some(Step::Empty { i: x })
+            }
+            Kind::FullVertex => {
+                // a vertex that carries exactly N labels (the limit), spread over few targets, then a
+                // re-bind of one of them, of the first and of the last, to another target
+                let n = view.cfg.n;
+                let v = self.pick_present(m)?;
+                let have = m.present[&v].edges.len();
+                if have >= n {
+                    return None;
+                }
+                let mut targets: Vec<usize> = m.present.keys().copied().filter(|t| *t != v).collect();
+                if targets.is_empty() {
+                    return None;
+                }
+                self.rng.shuffle(&mut targets);
+                targets.truncate(3);
+                // dry run on the model, so that group limits are respected
+                let mut mm = m.clone();
+                let mut steps = Vec::new();
+                let base = 300 + self.rng.below(1_000);
+                for k in have..n {
+                    let t = targets[k % targets.len()];
+                    let l = PLabel::A(base + k);
+                    if !mm.can_bind(v, t, &l) {
+                        return None;
+                    }
+                    mm.bind(v, t, &l);
+                    steps.push(Step::Bind { i, a: view.name(v), b: view.name(t), l });
+                }
+                let labels: Vec<PLabel> = mm.present[&v].edges.iter().map(|(l, _)| l.clone()).collect();
+                for idx in [0, labels.len() / 2, labels.len() - 1] {
+                    let t = *self.rng.pick(&targets);
+                    if mm.can_bind(v, t, &labels[idx]) {
+                        mm.bind(v, t, &labels[idx]);
+                        steps.push(Step::Bind { i, a: view.name(v), b: view.name(t), l: labels[idx].clone() });
+                    }
+                }
+                if steps.is_empty() {
+                    return None;
+                }
+                let first = steps.remove(0);
+                self.queue.extend(steps);
+                Some(first)
             }
             Kind::SaveReadSave => {
                 // a generation in which nothing but reads happens: save, read, save to the same
